@@ -67,7 +67,7 @@ BIAS = {
 class AclMachine(Machine):
     name = "M-ACL"
     PROPS = ("C02", "C04", "C10", "C15", "C17", "C19")
-    QUICK_RUNS = {"C17": 2600, "C02": 1600, "C04": 1600, "C10": 3000, "C15": 3000, "C19": 2000}
+    QUICK_RUNS = {"C17": 2600, "C02": 1600, "C04": 2400, "C10": 3000, "C15": 3000, "C19": 2000}
     THOROUGH_BUDGET_S = 900
     RULE = (
         "one evaluation = one seeded history (<= 40 ops; quick <= 14) of public operations on <= 2 "
